@@ -404,7 +404,8 @@ class SymdelDB:
 
 
     def __init__(self, seqs, max_edits):
-        self.seqs = seqs
+        # positional access below must not depend on pandas index labels
+        self.seqs = ensure_numpy(seqs)
         self.max_edits = max_edits
         self.variant_dict = {}
         for i, seq in enumerate(seqs):
@@ -464,7 +465,7 @@ class SymdelDB:
                 for j in self.variant_dict[comb]:
                     j_indices.add(j)
             for j in j_indices:
-                dist = custom_distance(seqs2[i], self.seqs[j])
+                dist = custom_distance(seq, self.seqs[j])
                 if dist > threshold:
                     continue
                 ans.append((i, j, dist))
@@ -529,6 +530,7 @@ def symdel(seqs, max_edits=1, max_returns=None, n_cpu=1,
         seqs2
     )
     symdeldb = SymdelDB(seqs, max_edits)
+    seqs = symdeldb.seqs
 
     if seqs2 is None:
         ans = set()
